@@ -18,7 +18,10 @@ def pipeline(run):
             return {}, None
     else:
         # the repaired protocol (what the tree implements) and, for the record, the pinned one (DevCreatorChainOnly)
-        run.model_check("MC_Calls", MC_CFG % ("TRUE" if run.tier == "thorough" else "FALSE"), workers=16, timeout=6000)
+        # role A runs beside the export / replay (its long phases are single-threaded); joined before the verdict
+        import concurrent.futures as cf
+        pool = cf.ThreadPoolExecutor(max_workers=2)
+        mc = pool.submit(run.model_check, "MC_Calls", MC_CFG % ("TRUE" if run.tier == "thorough" else "FALSE"), workers=8, timeout=6000)
         part = run.seed % parts
         out = run.tlc("Export_Calls", "INIT Init\nNEXT Next\nCONSTANTS\n  ScenOut = \"%s\"\n  Part = %d\n  Parts = %d\n  AllSuspects = TRUE\n  Fixed = TRUE\nCHECK_DEADLOCK FALSE\n" % (scen, part, parts),
                       workers=1, timeout=6000, role="export")
@@ -37,6 +40,9 @@ def pipeline(run):
     run.fam = "calls"
     run.scen_files["calls"] = scen
     run.validate_obs("Obs_Calls", obs, constants="  Fixed = TRUE")
+    if not run.replay:
+        mc.result()          # raises if role A failed
+        pool.shutdown()
     return summ, obs
 
 
